@@ -451,7 +451,7 @@ impl Mon {
         true
     }
 
-    pub fn on_response(&mut self, ei: usize, d: &Dgram, t: &Transmit, bytes: &[u8], now: u64, min_interval_ns: u64, _led: &mut Ledger) {
+    pub fn on_response(&mut self, ei: usize, d: &Dgram, t: &Transmit, bytes: &[u8], now: u64, min_interval_ns: u64, accepts_connections: bool, _led: &mut Ledger) {
         self.cnt.inc("ep.response");
         if !bytes.is_empty() && bytes[0] & 0x80 == 0 {
             if let Some(last) = self.last_reset_ns.insert(ei, now) {
@@ -459,6 +459,16 @@ impl Mon {
                     self.violate("C07", format!("endpoint {ei}: two stateless resets {} ns apart, min_reset_interval is {min_interval_ns} ns", now - last));
                 }
             }
+        }
+        // a supported-version Initial in a datagram below 1200 bytes gets no reply at all, and no
+        // stateless reply (close, Version Negotiation, Retry) is larger than 3x what provoked it
+        let d0 = &d.data;
+        let is_v1_initial = d0.len() >= 5 && d0[0] & 0x80 != 0 && d0[0] & 0x30 == 0 && d0[1..5] == [0, 0, 0, 1];
+        self.cnt.inc("c07.response_checks");
+        if is_v1_initial && d0.len() < 1200 && accepts_connections {
+            self.violate("C07", format!("endpoint {ei}: reply of {} bytes (first byte {:02x}) to a supported-version Initial carried in a {}-byte datagram", t.size, bytes.first().copied().unwrap_or(0), d0.len()));
+        } else if t.size > 3 * d0.len() {
+            self.violate("C07", format!("endpoint {ei}: stateless reply of {} bytes to a {}-byte datagram from an unvalidated address", t.size, d0.len()));
         }
         // Stateless reset bound (C07): responses that look like short-header packets must be
         // strictly smaller than the datagram that provoked them.
